@@ -23,7 +23,7 @@ static std::string runOp(const vh::Case& c) {
 	if (it == g_reg.end()) return vh::JObj().str("id", c.get("id")).str("error", "unknown arch/type " + arch + "/" + type).done();
 	doc::Req r; r.c = c;
 	doc::fillOptions(r, archFlagOf(arch));
-	doc::OpFn fn = op == "save" ? it->second.save : op == "load" ? it->second.load : op == "roundtrip" ? it->second.roundtrip : op == "shape" ? it->second.shape : nullptr;
+	doc::OpFn fn = op == "save" ? it->second.save : op == "load" ? it->second.load : op == "roundtrip" ? it->second.roundtrip : op == "shape" ? it->second.shape : op == "sweep" ? it->second.sweep : nullptr;
 	if (!fn) return vh::JObj().str("id", c.get("id")).str("error", "unknown op").done();
 	using M = vh::AllocMeter;
 	bool meter = c.geti("meter", 0) != 0 || c.has("failalloc");
